@@ -3,14 +3,14 @@
    children with a non-empty extension; satisfied concepts are upward closed, hence all reached. *)
 From Coq Require Import Permutation.
 From FCA Require Export Model.TraceContext Spec.Trace Lemmas.C12Order.
-From FCA Require Import Lemmas.C01.
+From FCA Require Import Lemmas.C01 Lemmas.C14.
 
-Lemma monotone_refused_index b L t enum :
-  lt_monotone L = true -> trace_by_index b L t enum = Fail 9.
+Lemma monotone_refused_index ext_of L h enum :
+  lt_monotone L = true -> trace_by_index ext_of L h enum = Fail 9.
 Proof. intros H. unfold trace_by_index. rewrite H. reflexivity. Qed.
 
-Lemma monotone_refused_name b L t enum names :
-  lt_monotone L = true -> trace_by_name b L t enum names = Fail 9.
+Lemma monotone_refused_name ext_of L h enum names :
+  lt_monotone L = true -> trace_by_name ext_of L h enum names = Fail 9.
 Proof. intros H. unfold trace_by_name. rewrite H. reflexivity. Qed.
 
 (* ------------------------------------------------------------------ sorting keeps the elements *)
@@ -40,15 +40,15 @@ Proof.
 Qed.
 
 Section TraceProofs.
-Variable b : backend.
+Variable ext_of : nat -> list nat.
 Variable L : lattice.
-Variable t : table.
+Variable h : nat.
 Variable enum : list nat -> list nat.
 Variable lt : nat -> nat -> bool.
+Variable sat : nat -> nat -> bool.
 
 Let n := lt_len L.
-Let intent (c : nat) := nth c (lt_intents L) [].
-Let ext (c : nat) := ext_spec t (intent c) (all_objs t).
+Let ext (c : nat) := ext_of c.
 Let children := lt_children L.
 Let top := lt_top L.
 
@@ -58,20 +58,12 @@ Hypothesis SO : strict_order lt n.
 Hypothesis Htop : is_top lt n top.
 Hypothesis Hch : forall i, i < n -> forall x, In x (children i) <-> In x (lower_covers lt n i).
 Hypothesis Hch_nd : forall i, i < n -> NoDup (children i).
-Hypothesis Hanti : antitone_intents lt (lt_intents L).
-Hypothesis Hwf : wf t.
-Hypothesis Hrange : forall i, i < n -> in_range (width t) (intent i).
+(* the extension on the traced context is the satisfaction filter, and satisfaction is antitone *)
+Hypothesis Hext : forall c, c < n -> forall g, In g (ext_of c) <-> g < h /\ sat c g = true.
+Hypothesis Hanti : antitone_sat lt sat n.
 
-Lemma ext_In c g : In g (ext c) <-> g < height t /\ satisfies t g (intent c) = true.
-Proof.
-  unfold ext, ext_spec, all_objs, satisfies. rewrite filter_In, in_seq. split; intros H; intuition lia.
-Qed.
-
-Lemma model_ext c : c < n -> extension_i b t (intent c) None = ext c.
-Proof.
-  intros Hc. unfold ext. rewrite (extension_i_correct b t (intent c) None Hwf (Hrange c Hc)); [reflexivity|].
-  exact Logic.I.
-Qed.
+Lemma ext_In c g : c < n -> (In g (ext c) <-> g < h /\ sat c g = true).
+Proof. intros Hc. apply (Hext c Hc g). Qed.
 
 Lemma children_lt c x : c < n -> In x (children c) -> x < n /\ lt x c = true.
 Proof.
@@ -81,32 +73,31 @@ Qed.
 (* below in the lattice => satisfied by fewer objects *)
 Lemma ext_antitone_lt i j g : i < n -> j < n -> lt i j = true -> In g (ext i) -> In g (ext j).
 Proof.
-  intros Hi Hj Hlt. rewrite !ext_In. intros [Hg Hs]. split; [exact Hg|].
-  unfold satisfies in *. rewrite forallb_forall in *. intros m Hm. apply Hs.
-  apply (Hanti i j Hi Hj Hlt). exact Hm.
+  intros Hi Hj Hlt. rewrite (ext_In i g Hi), (ext_In j g Hj). intros [Hg Hs]. split; [exact Hg|].
+  apply (Hanti i j Hi Hj Hlt g Hs).
 Qed.
 
 (* ---------------------------------------------------------------- the memo table *)
 Definition cache_ok (m : cache) : Prop := forall c e, cache_get c m = Some e -> c < n /\ e = ext c.
 
 Lemma stored_ok m c : c < n -> cache_ok m ->
-  fst (stored b L t m c) = ext c /\ cache_ok (snd (stored b L t m c)).
+  fst (stored ext_of m c) = ext c /\ cache_ok (snd (stored ext_of m c)).
 Proof.
   intros Hc Hm. unfold stored. destruct (cache_get c m) as [e|] eqn:E; simpl.
   - split; [apply (Hm c e E) | exact Hm].
-  - fold (intent c). rewrite (model_ext c Hc). split; [reflexivity|].
+  - split; [reflexivity|].
     intros c' e'. simpl. destruct (Nat.eqb c' c) eqn:E'.
     + apply Nat.eqb_eq in E'. subst c'. intros H. inversion H. split; [exact Hc | reflexivity].
     + apply Hm.
 Qed.
 
 Lemma stored_union_ok subs : forall m acc, (forall s, In s subs -> s < n) -> cache_ok m ->
-  cache_ok (snd (stored_union b L t m subs acc)) /\
-  forall g, In g (fst (stored_union b L t m subs acc)) <-> In g acc \/ exists s, In s subs /\ In g (ext s).
+  cache_ok (snd (stored_union ext_of m subs acc)) /\
+  forall g, In g (fst (stored_union ext_of m subs acc)) <-> In g acc \/ exists s, In s subs /\ In g (ext s).
 Proof.
   induction subs as [|s subs IH]; intros m acc Hb Hm; simpl.
   - split; [exact Hm|]. intros g. split; [auto|]. intros [H|[s [[] _]]]. exact H.
-  - destruct (stored b L t m s) as [e m1] eqn:E.
+  - destruct (stored ext_of m s) as [e m1] eqn:E.
     assert (Hs := stored_ok m s (Hb s (or_introl eq_refl)) Hm). rewrite E in Hs. simpl in Hs.
     destruct Hs as [He Hm1]. subst e.
     destruct (IH m1 (union (ext s) acc) (fun x H => Hb x (or_intror H)) Hm1) as [IH1 IH2].
@@ -120,18 +111,18 @@ Proof.
 Qed.
 
 Lemma new_concepts_ok subs : forall m V Q, (forall s, In s subs -> s < n) -> cache_ok m ->
-  cache_ok (snd (new_concepts b L t m subs V Q)) /\
-  (forall s, In s (fst (new_concepts b L t m subs V Q)) <->
+  cache_ok (snd (new_concepts ext_of m subs V Q)) /\
+  (forall s, In s (fst (new_concepts ext_of m subs V Q)) <->
              In s subs /\ ext s <> [] /\ ~ In s V /\ ~ In s Q) /\
-  (NoDup subs -> NoDup (fst (new_concepts b L t m subs V Q))).
+  (NoDup subs -> NoDup (fst (new_concepts ext_of m subs V Q))).
 Proof.
   induction subs as [|s subs IH]; intros m V Q Hb Hm; simpl.
   - split; [exact Hm|]. split; [|intros; constructor]. intros s. simpl. tauto.
-  - destruct (stored b L t m s) as [e m1] eqn:E.
+  - destruct (stored ext_of m s) as [e m1] eqn:E.
     assert (Hs := stored_ok m s (Hb s (or_introl eq_refl)) Hm). rewrite E in Hs. simpl in Hs.
     destruct Hs as [He Hm1]. subst e.
     destruct (IH m1 V Q (fun x H => Hb x (or_intror H)) Hm1) as [IH1 [IH2 IH3]].
-    destruct (new_concepts b L t m1 subs V Q) as [rest m2] eqn:E2. simpl in *.
+    destruct (new_concepts ext_of m1 subs V Q) as [rest m2] eqn:E2. simpl in *.
     split; [exact IH1|].
     assert (Hcond : negb (Nat.eqb (length (ext s)) 0) && negb (mem s V) && negb (mem s Q) = true
                     <-> ext s <> [] /\ ~ In s V /\ ~ In s Q).
@@ -178,7 +169,7 @@ Proof.
 Qed.
 
 Lemma Inv_step f s c q :
-  Inv (S f) s -> ts_queue s = c :: q -> Inv f (trace_step b L t enum s c q).
+  Inv (S f) s -> ts_queue s = c :: q -> Inv f (trace_step ext_of L enum s c q).
 Proof.
   intros [Hc [Hnd [Hb [Htr [Hbo [Htp [Hcl Hlen]]]]]]] Hq. rewrite Hq in *.
   set (V := ts_visited s) in *.
@@ -190,15 +181,15 @@ Proof.
   assert (Hadd : add c V = c :: V).
   { unfold add. apply mem_false_iff in HcV. rewrite HcV. reflexivity. }
   unfold trace_step. fold V. rewrite Hadd.
-  destruct (stored b L t (ts_cache s) c) as [extent m1] eqn:E1.
-  assert (S1 := stored_ok (ts_cache s) c Hcn Hc). rewrite E1 in S1. simpl in S1. destruct S1 as [Hext Hm1].
+  destruct (stored ext_of (ts_cache s) c) as [extent m1] eqn:E1.
+  assert (S1 := stored_ok (ts_cache s) c Hcn Hc). rewrite E1 in S1. simpl in S1. destruct S1 as [Hextc Hm1].
   subst extent.
   assert (Hsubs : forall x, In x (enum (lt_children L c)) -> x < n).
   { intros x Hx. apply (proj1 (Henum_In _ _)) in Hx. apply (children_lt c x Hcn Hx). }
-  destruct (stored_union b L t m1 (enum (lt_children L c)) []) as [sub_exts m2] eqn:E2.
+  destruct (stored_union ext_of m1 (enum (lt_children L c)) []) as [sub_exts m2] eqn:E2.
   assert (S2 := stored_union_ok (enum (lt_children L c)) m1 [] Hsubs Hm1). rewrite E2 in S2. simpl in S2.
   destruct S2 as [Hm2 Hsub].
-  destruct (new_concepts b L t m2 (enum (lt_children L c)) (c :: V) q) as [new m3] eqn:E3.
+  destruct (new_concepts ext_of m2 (enum (lt_children L c)) (c :: V) q) as [new m3] eqn:E3.
   assert (S3 := new_concepts_ok (enum (lt_children L c)) m2 (c :: V) q Hsubs Hm2). rewrite E3 in S3. simpl in S3.
   destruct S3 as [Hm3 [Hnew Hnewnd]].
   assert (Hnewnd' : NoDup new) by (apply Hnewnd, Henum_nd, (Hch_nd c Hcn)).
@@ -266,7 +257,7 @@ Proof.
 Qed.
 
 Lemma Inv_loop f : forall s, Inv f s ->
-  exists f', Inv f' (trace_loop b L t enum f s) /\ ts_queue (trace_loop b L t enum f s) = [].
+  exists f', Inv f' (trace_loop ext_of L enum f s) /\ ts_queue (trace_loop ext_of L enum f s) = [].
 Proof.
   induction f as [|f IH]; intros s HI.
   - simpl. exists 0. split; [exact HI|].
@@ -281,15 +272,15 @@ Qed.
 Lemma Hn : n <> 0.
 Proof. destruct Htop as [H _]. lia. Qed.
 
-Lemma final_inv : exists f, Inv f (trace_final b L t enum) /\ ts_queue (trace_final b L t enum) = [].
+Lemma final_inv : exists f, Inv f (trace_final ext_of L enum) /\ ts_queue (trace_final ext_of L enum) = [].
 Proof. unfold trace_final. apply Inv_loop. apply Inv_init. exact Hn. Qed.
 
-Theorem loop_bound_ok : ts_queue (trace_final b L t enum) = [].
+Theorem loop_bound_ok : ts_queue (trace_final ext_of L enum) = [].
 Proof. destruct final_inv as [f [_ H]]. exact H. Qed.
 
 (* every concept whose extension on the traced context contains g is visited *)
 Lemma reach_aux m : forall c g, c < n -> length (strict_up lt n c) <= m -> In g (ext c) ->
-  In c (ts_visited (trace_final b L t enum)).
+  In c (ts_visited (trace_final ext_of L enum)).
 Proof.
   destruct final_inv as [f [HI HQ]].
   destruct HI as [_ [_ [Hb [_ [_ [Htp [Hcl _]]]]]]]. rewrite HQ, !app_nil_r in *.
@@ -305,7 +296,7 @@ Proof.
     destruct (cover_above lt n SO c top Hc Htn Hct) as [p [Hp [Hcov Hr]]].
     assert (Hcp : lt c p = true) by (apply (is_lower_cover_lt lt n p c Hcov)).
     assert (Hgp : In g (ext p)) by (apply (ext_antitone_lt c p g Hc Hp Hcp Hg)).
-    assert (HpV : In p (ts_visited (trace_final b L t enum))).
+    assert (HpV : In p (ts_visited (trace_final ext_of L enum))).
     { apply (IH p g Hp); [|exact Hgp].
       assert (Lt : length (strict_up lt n p) < length (strict_up lt n c)).
       { unfold strict_up. apply (filter_length_lt _ _ _ p).
@@ -319,94 +310,214 @@ Proof.
     apply (Hcl p HpV c Hchild). intros Hnil. rewrite Hnil in Hg. contradiction.
 Qed.
 
-Lemma reach c g : c < n -> In g (ext c) -> In c (ts_visited (trace_final b L t enum)).
+Lemma reach c g : c < n -> In g (ext c) -> In c (ts_visited (trace_final ext_of L enum)).
 Proof. intros Hc Hg. apply (reach_aux (length (strict_up lt n c)) c g Hc (le_n _) Hg). Qed.
 
-Theorem traced_exact g : g < height t ->
-  same_set (ts_traced (trace_final b L t enum) g) (traced_spec (lt_intents L) t g).
+Theorem traced_exact g : g < h ->
+  same_set (ts_traced (trace_final ext_of L enum) g) (traced_gen sat n g).
 Proof.
   intros Hg c. destruct final_inv as [f [HI HQ]].
   destruct HI as [_ [_ [Hb [Htr _]]]]. rewrite HQ, !app_nil_r in *.
-  rewrite Htr. unfold traced_spec. change (length (lt_intents L)) with n. rewrite filter_In, in_seq. fold (intent c). split.
-  - intros [HV Hgc]. apply ext_In in Hgc. split; [specialize (Hb c HV); lia | tauto].
-  - intros [Hc Hs]. assert (Hgc : In g (ext c)) by (apply ext_In; auto).
-    split; [apply (reach c g); [lia | exact Hgc] | exact Hgc].
+  rewrite Htr. unfold traced_gen. rewrite filter_In, in_seq. split.
+  - intros [HV Hgc]. assert (Hc := Hb c HV). apply (ext_In c g Hc) in Hgc. split; [lia | tauto].
+  - intros [Hc Hs]. assert (Hcn : c < n) by lia.
+    assert (Hgc : In g (ext c)) by (apply (ext_In c g Hcn); auto).
+    split; [apply (reach c g Hcn Hgc) | exact Hgc].
 Qed.
 
-Theorem bottom_exact g : g < height t ->
-  same_set (ts_bottom (trace_final b L t enum) g) (bottoms_spec lt (lt_intents L) t g).
+Theorem bottom_exact g : g < h ->
+  same_set (ts_bottom (trace_final ext_of L enum) g) (bottoms_gen lt sat n g).
 Proof.
   intros Hg c. destruct final_inv as [f [HI HQ]].
   destruct HI as [_ [_ [Hb [_ [Hbo _]]]]]. rewrite HQ, !app_nil_r in *.
-  rewrite Hbo. unfold bottoms_spec. change (length (lt_intents L)) with n. rewrite filter_In, in_seq, andb_true_iff, negb_true_iff.
-  fold (intent c). split.
+  rewrite Hbo. unfold bottoms_gen. rewrite filter_In, in_seq, andb_true_iff, negb_true_iff. split.
   - intros [HV [Hgc Hno]]. assert (Hc : c < n) by (apply Hb; exact HV).
-    split; [lia|]. split; [apply ext_In in Hgc; tauto|].
-    destruct (existsb (fun j => lt j c && satisfies t g (nth j (lt_intents L) [])) (seq 0 n)) eqn:E; [|reflexivity].
+    split; [lia|]. split; [apply (ext_In c g Hc) in Hgc; tauto|].
+    destruct (existsb (fun j => lt j c && sat j g) (seq 0 n)) eqn:E; [|reflexivity].
     exfalso. apply existsb_exists in E. destruct E as [j [Hj Hjs]]. apply in_seq in Hj.
     apply andb_true_iff in Hjs. destruct Hjs as [Hjc Hjs].
     assert (Hjn : j < n) by lia.
     destruct (cover_below lt n SO j c Hjn Hc Hjc) as [y [Hy [Hcov Hr]]].
-    assert (Hgj : In g (ext j)) by (apply ext_In; split; [exact Hg | exact Hjs]).
+    assert (Hgj : In g (ext j)) by (apply (ext_In j g Hjn); split; [exact Hg | exact Hjs]).
     assert (Hgy : In g (ext y)).
     { destruct Hr as [Hr|Hr]; [subst; exact Hgj | apply (ext_antitone_lt j y g Hjn Hy Hr Hgj)]. }
     apply (Hno y); [|exact Hgy].
     apply (Hch c Hc). unfold lower_covers. apply filter_In. split; [apply in_seq; lia | exact Hcov].
-  - intros [Hc [Hs Hno]]. assert (Hcn : c < n) by (lia).
-    assert (Hgc : In g (ext c)) by (apply ext_In; auto).
+  - intros [Hc [Hs Hno]]. assert (Hcn : c < n) by lia.
+    assert (Hgc : In g (ext c)) by (apply (ext_In c g Hcn); auto).
     split; [apply (reach c g Hcn Hgc)|]. split; [exact Hgc|].
     intros x Hx Hgx. destruct (children_lt c x Hcn Hx) as [Hxn Hxc].
-    assert (E : existsb (fun j => lt j c && satisfies t g (nth j (lt_intents L) [])) (seq 0 n) = true).
+    assert (E : existsb (fun j => lt j c && sat j g) (seq 0 n) = true).
     { apply existsb_exists. exists x. split; [apply in_seq; lia|].
-      rewrite Hxc. simpl. apply ext_In in Hgx. tauto. }
+      rewrite Hxc. simpl. apply (ext_In x g Hxn) in Hgx. tauto. }
     congruence.
 Qed.
 
 End TraceProofs.
 
-(* the hypotheses of the theorems in one place: [lt] is the order of the lattice, the children
-   dictionary is its cover relation (complete or pruned list of concepts alike), intents are
-   antitone along the order, the traced context is a well-formed table over the same attributes;
-   [enum] is the (arbitrary) iteration order of a frozenset *)
-Definition trace_hyps (L : lattice) (t : table) (enum : list nat -> list nat)
-           (lt : nat -> nat -> bool) : Prop :=
+(* ------------------------------------------------------------------ the hypotheses in one place *)
+(* [lt] is the order of the lattice, the children dictionary is its cover relation (complete or
+   pruned list of concepts alike), [ext_of] is the satisfaction filter of an antitone [sat] on the
+   h objects of the traced context; [enum] is the (arbitrary) iteration order of a frozenset *)
+Definition trace_hyps_gen (ext_of : nat -> list nat) (L : lattice) (h : nat)
+           (enum : list nat -> list nat) (lt sat : nat -> nat -> bool) : Prop :=
   (forall l x, In x (enum l) <-> In x l) /\ (forall l, NoDup l -> NoDup (enum l)) /\
   strict_order lt (lt_len L) /\ is_top lt (lt_len L) (lt_top L) /\
   (forall i, i < lt_len L -> forall x, In x (lt_children L i) <-> In x (lower_covers lt (lt_len L) i)) /\
   (forall i, i < lt_len L -> NoDup (lt_children L i)) /\
-  antitone_intents lt (lt_intents L) /\ wf t /\
-  (forall i, i < lt_len L -> in_range (width t) (nth i (lt_intents L) [])).
+  (forall c, c < lt_len L -> forall g, In g (ext_of c) <-> g < h /\ sat c g = true) /\
+  antitone_sat lt sat (lt_len L).
 
-Theorem traced_exact' b L t enum lt : trace_hyps L t enum lt -> forall g, g < height t ->
-  same_set (ts_traced (trace_final b L t enum) g) (traced_spec (lt_intents L) t g).
-Proof. intros [H1 [H2 [H3 [H4 [H5 [H6 [H7 [H8 H9]]]]]]]]. apply (traced_exact b L t enum lt); assumption. Qed.
+Theorem traced_exact_gen ext_of L h enum lt sat : trace_hyps_gen ext_of L h enum lt sat ->
+  forall g, g < h -> same_set (ts_traced (trace_final ext_of L enum) g) (traced_gen sat (lt_len L) g).
+Proof. intros [H1 [H2 [H3 [H4 [H5 [H6 [H7 H8]]]]]]]. apply (traced_exact ext_of L h enum lt sat); assumption. Qed.
 
-Theorem bottom_exact' b L t enum lt : trace_hyps L t enum lt -> forall g, g < height t ->
-  same_set (ts_bottom (trace_final b L t enum) g) (bottoms_spec lt (lt_intents L) t g).
-Proof. intros [H1 [H2 [H3 [H4 [H5 [H6 [H7 [H8 H9]]]]]]]]. apply (bottom_exact b L t enum lt); assumption. Qed.
+Theorem bottom_exact_gen ext_of L h enum lt sat : trace_hyps_gen ext_of L h enum lt sat ->
+  forall g, g < h -> same_set (ts_bottom (trace_final ext_of L enum) g) (bottoms_gen lt sat (lt_len L) g).
+Proof. intros [H1 [H2 [H3 [H4 [H5 [H6 [H7 H8]]]]]]]. apply (bottom_exact ext_of L h enum lt sat); assumption. Qed.
 
-Theorem loop_bound_ok' b L t enum lt : trace_hyps L t enum lt ->
-  ts_queue (trace_final b L t enum) = [].
-Proof. intros [H1 [H2 [H3 [H4 [H5 [H6 [H7 [H8 H9]]]]]]]]. apply (loop_bound_ok b L t enum lt); assumption. Qed.
+Theorem loop_bound_ok_gen ext_of L h enum lt sat : trace_hyps_gen ext_of L h enum lt sat ->
+  ts_queue (trace_final ext_of L enum) = [].
+Proof. intros [H1 [H2 [H3 [H4 [H5 [H6 [H7 H8]]]]]]]. apply (loop_bound_ok ext_of L h enum lt); assumption. Qed.
 
 (* the public result in the by-index key mode *)
-Theorem trace_by_index_exact b L t enum lt : trace_hyps L t enum lt -> lt_monotone L = false ->
-  exists bs trs, trace_by_index b L t enum = Done (bs, trs) /\
-    length bs = height t /\ length trs = height t /\
-    forall g, g < height t ->
-      same_set (nth g bs []) (bottoms_spec lt (lt_intents L) t g) /\
-      same_set (nth g trs []) (traced_spec (lt_intents L) t g).
+Theorem trace_by_index_exact_gen ext_of L h enum lt sat :
+  trace_hyps_gen ext_of L h enum lt sat -> lt_monotone L = false ->
+  exists bs trs, trace_by_index ext_of L h enum = Done (bs, trs) /\
+    length bs = h /\ length trs = h /\
+    forall g, g < h ->
+      same_set (nth g bs []) (bottoms_gen lt sat (lt_len L) g) /\
+      same_set (nth g trs []) (traced_gen sat (lt_len L) g).
 Proof.
   intros H Hm. unfold trace_by_index. rewrite Hm.
-  exists (tabulate (height t) (ts_bottom (trace_final b L t enum))),
-         (tabulate (height t) (ts_traced (trace_final b L t enum))).
+  exists (tabulate h (ts_bottom (trace_final ext_of L enum))),
+         (tabulate h (ts_traced (trace_final ext_of L enum))).
   split; [reflexivity|]. unfold tabulate. rewrite !map_length, seq_length.
   split; [reflexivity|]. split; [reflexivity|]. intros g Hg.
-  assert (E : forall f : nat -> list nat, nth g (map f (seq 0 (height t))) [] = f g).
+  assert (E : forall f : nat -> list nat, nth g (map f (seq 0 h)) [] = f g).
   { intros f. rewrite (nth_indep _ [] (f 0)) by (rewrite map_length, seq_length; exact Hg).
     rewrite map_nth, seq_nth by exact Hg. reflexivity. }
-  rewrite !E. split; [apply (bottom_exact' b L t enum lt H g Hg) | apply (traced_exact' b L t enum lt H g Hg)].
+  rewrite !E. split; [apply (bottom_exact_gen ext_of L h enum lt sat H g Hg) | apply (traced_exact_gen ext_of L h enum lt sat H g Hg)].
 Qed.
+
+(* ------------------------------------------------------------------ instance 1: formal contexts *)
+Definition trace_hyps (L : lattice) (intents : list (list nat)) (t : table)
+           (enum : list nat -> list nat) (lt : nat -> nat -> bool) : Prop :=
+  lt_len L = length intents /\
+  (forall l x, In x (enum l) <-> In x l) /\ (forall l, NoDup l -> NoDup (enum l)) /\
+  strict_order lt (lt_len L) /\ is_top lt (lt_len L) (lt_top L) /\
+  (forall i, i < lt_len L -> forall x, In x (lt_children L i) <-> In x (lower_covers lt (lt_len L) i)) /\
+  (forall i, i < lt_len L -> NoDup (lt_children L i)) /\
+  antitone_intents lt intents /\ wf t /\
+  (forall i, i < lt_len L -> in_range (width t) (nth i intents [])).
+
+Lemma formal_hyps b L intents t enum lt : trace_hyps L intents t enum lt ->
+  trace_hyps_gen (formal_ext b intents t) L (height t) enum lt (sat_formal intents t).
+Proof.
+  intros [Hlen [H1 [H2 [H3 [H4 [H5 [H6 [H7 [H8 H9]]]]]]]]].
+  split; [exact H1|]. split; [exact H2|]. split; [exact H3|]. split; [exact H4|]. split; [exact H5|].
+  split; [exact H6|]. split.
+  - intros c Hc g. unfold formal_ext.
+    rewrite (extension_i_correct b t (nth c intents []) None H8 (H9 c Hc) Logic.I).
+    unfold ext_spec, all_objs, sat_formal, satisfies. simpl. rewrite filter_In, in_seq. split; intros H; intuition lia.
+  - intros i j Hi Hj Hlt g. unfold sat_formal, satisfies. rewrite !forallb_forall. intros Hs m Hm.
+    apply Hs. rewrite Hlen in Hi, Hj. apply (H7 i j Hi Hj Hlt). exact Hm.
+Qed.
+
+Theorem traced_exact' b L intents t enum lt : trace_hyps L intents t enum lt -> forall g, g < height t ->
+  same_set (ts_traced (trace_final (formal_ext b intents t) L enum) g) (traced_spec intents t g).
+Proof.
+  intros H g Hg. unfold traced_spec. rewrite <- (proj1 H).
+  apply (traced_exact_gen _ L (height t) enum lt _ (formal_hyps b L intents t enum lt H) g Hg).
+Qed.
+
+Theorem bottom_exact' b L intents t enum lt : trace_hyps L intents t enum lt -> forall g, g < height t ->
+  same_set (ts_bottom (trace_final (formal_ext b intents t) L enum) g) (bottoms_spec lt intents t g).
+Proof.
+  intros H g Hg. unfold bottoms_spec. rewrite <- (proj1 H).
+  apply (bottom_exact_gen _ L (height t) enum lt _ (formal_hyps b L intents t enum lt H) g Hg).
+Qed.
+
+Theorem loop_bound_ok' b L intents t enum lt : trace_hyps L intents t enum lt ->
+  ts_queue (trace_final (formal_ext b intents t) L enum) = [].
+Proof. intros H. apply (loop_bound_ok_gen _ L (height t) enum lt _ (formal_hyps b L intents t enum lt H)). Qed.
+
+Theorem trace_by_index_exact b L intents t enum lt : trace_hyps L intents t enum lt -> lt_monotone L = false ->
+  exists bs trs, trace_by_index (formal_ext b intents t) L (height t) enum = Done (bs, trs) /\
+    length bs = height t /\ length trs = height t /\
+    forall g, g < height t ->
+      same_set (nth g bs []) (bottoms_spec lt intents t g) /\
+      same_set (nth g trs []) (traced_spec intents t g).
+Proof.
+  intros H Hm. unfold bottoms_spec, traced_spec. rewrite <- (proj1 H).
+  apply (trace_by_index_exact_gen _ L (height t) enum lt _ (formal_hyps b L intents t enum lt H) Hm).
+Qed.
+
+(* ------------------------------------------------------------------ instance 2: many-valued contexts *)
+Lemma desc_leb_covers d1 d2 v : desc_leb d1 d2 = true -> covers d1 v = true -> covers d2 v = true.
+Proof.
+  destruct d1 as [[[a b]|]|[s|]|d], d2 as [[[a' b']|]|[s'|]|d'], v as [[l r]|row|x]; simpl; intros H1 H2;
+    try discriminate; try reflexivity.
+  - apply andb_true_iff in H1. apply andb_true_iff in H2. destruct H1 as [A1 A2]. destruct H2 as [B1 B2].
+    apply Z.leb_le in A1, A2, B1, B2. apply andb_true_iff. split; apply Z.leb_le; lia.
+  - apply subsetb_incl in H1, H2. apply subsetb_incl. intros y Hy. apply H1, H2, Hy.
+  - destruct d, d', x; simpl in *; congruence.
+Qed.
+
+Lemma intent_leb_sat cols ds1 ds2 g : intent_leb ds1 ds2 = true ->
+  sat_desc cols ds1 g = true -> sat_desc cols ds2 g = true.
+Proof.
+  unfold intent_leb, sat_desc. revert ds2. induction ds1 as [|[i d] ds1 IH]; intros [|[i' d'] ds2]; simpl;
+    intros H1 H2; try discriminate; [reflexivity|].
+  apply andb_true_iff in H1. destruct H1 as [H1 H1']. apply andb_true_iff in H1. destruct H1 as [Hi Hd].
+  apply Nat.eqb_eq in Hi. subst i'. apply andb_true_iff in H2. destruct H2 as [H2 H2'].
+  apply andb_true_iff. split; [apply (desc_leb_covers d d' _ Hd H2) | apply (IH ds2 H1' H2')].
+Qed.
+
+Definition trace_hyps_mv (L : lattice) (intents : list mv_intent) (K : mvctx)
+           (enum : list nat -> list nat) (lt : nat -> nat -> bool) : Prop :=
+  lt_len L = length intents /\
+  (forall l x, In x (enum l) <-> In x l) /\ (forall l, NoDup l -> NoDup (enum l)) /\
+  strict_order lt (lt_len L) /\ is_top lt (lt_len L) (lt_top L) /\
+  (forall i, i < lt_len L -> forall x, In x (lt_children L i) <-> In x (lower_covers lt (lt_len L) i)) /\
+  (forall i, i < lt_len L -> NoDup (lt_children L i)) /\
+  antitone_mv lt intents /\
+  (* every intent addresses existing structures with descriptions of their kind *)
+  (forall i, i < lt_len L -> ddict_ok K (nth i intents [])).
+
+Lemma mv_hyps L intents K enum lt : trace_hyps_mv L intents K enum lt ->
+  trace_hyps_gen (mv_ext K intents) L (mv_n K) enum lt (sat_mv intents (mv_cols K)).
+Proof.
+  intros [Hlen [H1 [H2 [H3 [H4 [H5 [H6 [H7 H8]]]]]]]].
+  split; [exact H1|]. split; [exact H2|]. split; [exact H3|]. split; [exact H4|]. split; [exact H5|].
+  split; [exact H6|]. split.
+  - intros c Hc g. unfold mv_ext. assert (E := extension_conj_any K (nth c intents []) None (H8 c Hc)).
+    unfold mv_intent, ddict in *. rewrite E.
+    simpl. rewrite filter_In, in_seq. unfold sat_mv, sat_desc, covers_ddict, mv_col.
+    split; intros H; intuition lia.
+  - intros i j Hi Hj Hlt g. unfold sat_mv. rewrite Hlen in Hi, Hj.
+    apply (intent_leb_sat (mv_cols K) _ _ g (H7 i j Hi Hj Hlt)).
+Qed.
+
+Theorem traced_exact_mv L intents K enum lt : trace_hyps_mv L intents K enum lt -> forall g, g < mv_n K ->
+  same_set (ts_traced (trace_final (mv_ext K intents) L enum) g)
+           (traced_gen (sat_mv intents (mv_cols K)) (length intents) g).
+Proof.
+  intros H g Hg. rewrite <- (proj1 H).
+  apply (traced_exact_gen _ L (mv_n K) enum lt _ (mv_hyps L intents K enum lt H) g Hg).
+Qed.
+
+Theorem bottom_exact_mv L intents K enum lt : trace_hyps_mv L intents K enum lt -> forall g, g < mv_n K ->
+  same_set (ts_bottom (trace_final (mv_ext K intents) L enum) g)
+           (bottoms_gen lt (sat_mv intents (mv_cols K)) (length intents) g).
+Proof.
+  intros H g Hg. rewrite <- (proj1 H).
+  apply (bottom_exact_gen _ L (mv_n K) enum lt _ (mv_hyps L intents K enum lt H) g Hg).
+Qed.
+
+Theorem loop_bound_ok_mv L intents K enum lt : trace_hyps_mv L intents K enum lt ->
+  ts_queue (trace_final (mv_ext K intents) L enum) = [].
+Proof. intros H. apply (loop_bound_ok_gen _ L (mv_n K) enum lt _ (mv_hyps L intents K enum lt H)). Qed.
 
 (* boolean versions of the hypotheses, for concrete instances *)
 Lemma antitone_intentsb_spec lt intents :
@@ -419,15 +530,24 @@ Proof.
   specialize (H j Hj'). rewrite Hlt in H. simpl in H. apply subsetb_incl. exact H.
 Qed.
 
+Lemma antitone_mvb_spec lt intents : antitone_mvb lt intents = true -> antitone_mv lt intents.
+Proof.
+  unfold antitone_mvb, antitone_mv. rewrite forallb_forall. intros H i j Hi Hj Hlt.
+  assert (Hi' : In i (seq 0 (length intents))) by (apply in_seq; lia).
+  specialize (H i Hi'). rewrite forallb_forall in H.
+  assert (Hj' : In j (seq 0 (length intents))) by (apply in_seq; lia).
+  specialize (H j Hj'). rewrite Hlt in H. simpl in H. exact H.
+Qed.
+
 (* ------------------------------------------------------------------ key modes *)
-Lemma keys_rekey b L t enum names bs trs :
-  trace_by_index b L t enum = Done (bs, trs) ->
-  trace_by_name b L t enum names =
-    Done (combine (map (fun g => nth g names 0) (seq 0 (height t))) bs,
-          combine (map (fun g => nth g names 0) (seq 0 (height t))) trs).
+Lemma keys_rekey ext_of L h enum names bs trs :
+  trace_by_index ext_of L h enum = Done (bs, trs) ->
+  trace_by_name ext_of L h enum names =
+    Done (combine (map (fun g => nth g names 0) (seq 0 h)) bs,
+          combine (map (fun g => nth g names 0) (seq 0 h)) trs).
 Proof.
   unfold trace_by_index, trace_by_name. destruct (lt_monotone L); [discriminate|].
   intros H. inversion H; subst. unfold tabulate. f_equal. f_equal.
-  - induction (seq 0 (height t)) as [|g l IH]; simpl; [reflexivity | rewrite IH; reflexivity].
-  - induction (seq 0 (height t)) as [|g l IH]; simpl; [reflexivity | rewrite IH; reflexivity].
+  - induction (seq 0 h) as [|g l IH]; simpl; [reflexivity | rewrite IH; reflexivity].
+  - induction (seq 0 h) as [|g l IH]; simpl; [reflexivity | rewrite IH; reflexivity].
 Qed.
